@@ -190,11 +190,8 @@ def exchangeNames (x y : Nat) : M Unit := do
       l2v := (m.tbl.l2v.insert y vx).insert x vy }
     cache := {} }
 
-/-- body of `swap` after argument validation (levels `x < y` adjacent) -/
-def swapBody (x y : Nat) : M (Nat × Nat) := do
-  let m ← M.get
-  let oldsize := m.len
-  let (ox, oy) ← takeSwapOrders x y
+/-- `swap` once the iteration orders `ox`, `oy` of the two level sets are fixed -/
+def swapWith (x y : Nat) (oldsize : Nat) (ox oy : List Nat) : M (Nat × Nat) := do
   let (lx, ly, garbage, xfresh) ← swapNodes x y ox oy
   exchangeNames x y
   collectGarbage (some (garbage.map (fun (k : Nat) => (k : Int))))
@@ -202,6 +199,13 @@ def swapBody (x y : Nat) : M (Nat × Nat) := do
   let newsize := m.len
   checkNewLevels x y lx ly xfresh
   return (oldsize, newsize)
+
+/-- body of `swap` after argument validation (levels `x < y` adjacent) -/
+def swapBody (x y : Nat) : M (Nat × Nat) := do
+  let m ← M.get
+  let oldsize := m.len
+  let (ox, oy) ← takeSwapOrders x y
+  swapWith x y oldsize ox oy
 
 def resolveVL (a : VarOrLevel) : M Int := do
   let m ← M.get
